@@ -82,12 +82,18 @@ ReadOnly(st, n) == Has(st.vars, n) /\ Get(st.vars, n).r
 (*      "trap"     trap -- v[1] n (hv) / trap - n (~hv)                    *)
 (*      "umask"    umask m                                                 *)
 Contains61(n) == \E k \in 1..Len(n) : n[k] = EQ
+(* XCU 2.15 trap: an action operand `-` resets the conditions; if the      *)
+(* first operand is an unsigned decimal integer all operands are           *)
+(* conditions (such operations are not generated).                         *)
+AllDigits(a) == a # <<>> /\ \A k \in 1..Len(a) : a[k] \in 48..57
+IsReset(o) == ~o.hv \/ o.v[1] = <<45>>
 
 (* Operations whose effect the sources leave open, or that would end the   *)
 (* shell, are not part of the quantifier (the generators skip them):       *)
 (* assigning to a read-only variable is an error that makes a              *)
-(* non-interactive shell exit; with allexport on, whether a value given to *)
-(* readonly/typeset counts as an assignment that exports is not stated;    *)
+(* non-interactive shell exit; with allexport on ("all variables assigned   *)
+(* in the shell are exported"), whether readonly/typeset count as          *)
+(* assigning is not stated;                                                *)
 (* with exec off nothing is executed any more; the operand of export,      *)
 (* readonly, typeset and alias is split at its first `=`; while the        *)
 (* portable option is on, `set` accepts only the option names POSIX knows  *)
@@ -103,11 +109,11 @@ OpEnabled(st, o) ==
         [] o.op \in {"export", "readonly", "typeset"} ->
              /\ ~Contains61(o.n)
              /\ o.hv => ~ReadOnly(st, o.n)
-             /\ (o.hv /\ o.op # "export") => O_allexport \notin st.opts
+             /\ o.op # "export" => O_allexport \notin st.opts
         [] o.op = "alias" -> ~Contains61(o.n)
         [] o.op = "func" -> TRUE
         [] o.op = "opt" -> o.n \in Modifiable /\ ~(o.n = O_exec /\ ~o.hv)
-        [] o.op = "trap" -> TRUE
+        [] o.op = "trap" -> ~(o.hv /\ AllDigits(o.v[1]))
         [] o.op = "umask" -> o.m \in 0..511)
 
 Apply(st, o) ==
@@ -128,8 +134,8 @@ Apply(st, o) ==
     [] o.op = "func" -> [st EXCEPT !.fn = Put(@, [n |-> o.n, b |-> o.v[1]])]
     [] o.op = "opt" -> [st EXCEPT !.opts = IF o.hv THEN @ \cup {o.n} ELSE @ \ {o.n}]
     [] o.op = "trap" ->
-         [st EXCEPT !.traps = IF o.hv THEN {t \in @ : t.c # o.n} \cup {[c |-> o.n, a |-> o.v[1]]}
-                                      ELSE {t \in @ : t.c # o.n}]
+         [st EXCEPT !.traps = IF IsReset(o) THEN {t \in @ : t.c # o.n}
+                              ELSE {t \in @ : t.c # o.n} \cup {[c |-> o.n, a |-> o.v[1]]}]
     [] o.op = "umask" -> [st EXCEPT !.mask = o.m]
 
 RECURSIVE ApplyAll(_, _)
